@@ -13,7 +13,7 @@
  * @mem check
  * @defs -DZSTD_DECODER_INTERNAL_BUFFER=64
  * @cbmc --unwind 10
- * @timeout 900
+ * @timeout 1800
  * @memgb 14
  * @instance stable_read -DOUT_STABLE=1 -DSS0=zdss_read -DSS_READ=1
  * @instance stable_load -DOUT_STABLE=1 -DSS0=zdss_load -DSS_LOAD=1
